@@ -16,16 +16,23 @@ def _c02_stages(tier):
 
 simple("C02", "exploration",
        "E-raw: all sequences of <=k tokens over a 41-token alphabet (25 URL-structure tokens + NUL, 0x80, 0xBF, 0xC0, lone 0xC3, "
-       "truncated E2 82, surrogate ED A0 80, F4 90 80 80, 0xFF, %f, %ff, xn-- with bad digits / overflow, e-acute, U+FFFD, an astral "
-       "char), each copied into an exact-size heap block and fed to every public entry point: parse<url>/<url_aggregator> (no base, 12 "
-       "bases, the string itself as base of 18 inputs), can_parse(+-base), href_from_file, 10 setters + 3 clear_* on a 12/18-URL state "
-       "menu to history depth 2 (depth 3 on a reduced value menu) followed by all getters/to_string/to_diagram/copy/move on every new "
-       "object state, url_search_params (all operations, depth<=2/3 sequences with three iterators held open), idna (bytes and vectors "
-       "of <=k of 35 code points incl. surrogates and values above U+10FFFF), percent-encode/decode helpers, checkers, "
-       "parse_url_pattern (string/init forms, +-base, +-ignoreCase) + test/exec/match/test_components, url_pattern_init::process*, "
-       "url_pattern_helpers, the C API; a length sweep (every length 0..70, every interesting byte at every offset) and IPv4-looking "
-       "hosts; evaluations = library calls, non-trivial = call produced a non-failure result, distinct = distinct (entry point, "
-       "status, result length) shapes",
+       "truncated E2 82, surrogate ED A0 80, F4 90 80 80, 0xFF, %f, %ff, xn-- with a bad digit / overflowing digits, e-acute, U+FFFD, "
+       "an astral char), each argument copied into an exact-size heap block, fed to every public entry point (quick / thorough): "
+       "parse<url>/<url_aggregator>, can_parse, href_from_file with no base, all 12 bases and the string itself as base of 18 inputs "
+       "(k<=2 / k<=3), and no base + 2 bases + as base of one input one notch deeper (k=3 / k=4 over a 24-token sub-alphabet of all "
+       "odd-byte tokens); 10 setters x every string (k<=2 on 6 states / k<=2 on 18 states and k=3 on 4) + 3 clear_*, both URL types, "
+       "setter histories of depth 2 (values k<=1 on 2 / 12 states; thorough also first value k<=2 over the sub-alphabet x 10 second "
+       "values on 4 states) and depth 3 (3 values, 2 states / 6 values, 8 states), all getters + validate on every new object state "
+       "and to_string/to_diagram/copy/move on every new (offsets, flags, length, JSON-escape classes) signature; url_search_params "
+       "(k<=3 as init/key/value, every operation sequence of depth <=2 / 3 with three iterators held open); idna on bytes (k<=3, IDNA "
+       "alphabet k<=3 / 4) and on vectors of <=3 / 4 of 35 code points incl. surrogates and values above U+10FFFF; percent-encode/"
+       "decode helpers and checkers (k<=3 / +k=4 sub-alphabet); parse_url_pattern string/init forms +-base +-ignoreCase, then "
+       "test/exec/match/test_components, url_pattern_init::process*, url_pattern_helpers (k<=2 over the raw and a 30-token pattern-"
+       "syntax alphabet / + k=3 light), every string as input of 5 fixed patterns (k<=2 / 3); length sweep: every length 0..70, each "
+       "of 6 / 12 interesting bytes at every offset, 3 / 8 templates; IPv4-looking hosts (<=4 / 6 chars over {0,1,9,.,x,a,f} + 12,288 "
+       "octet products); the C API (k<=2). evaluations = library calls, non-trivial = call produced a non-failure result, distinct = "
+       "distinct (entry point, status, result length) shapes. Thorough adds the quick enumeration on the uninstrumented build under "
+       "valgrind memcheck",
        ["oracle: process level - no ASan/UBSan/LSan report, no _GLIBCXX_ASSERTIONS abort, no exception leaving a call, no "
         "std::terminate, every call returns within the watchdog; thorough adds valgrind memcheck on the uninstrumented build",
         "clang++ 14 -O1 ASan+UBSan (-fno-sanitize-recover=undefined, unsigned wrap-around not checked) with -D_GLIBCXX_ASSERTIONS",
